@@ -469,7 +469,7 @@ def run_check(pid, tier, only=None):
     ev = write_evidence(pid, P, tier, seed, results, wall, violations, known_lines, notes + infra, partial=bool(only))
     for name, need in P.get("min_per_check_%s" % tier, {}).items():
         got = ev["coverage"]["per_check_evaluations"].get(name, 0)
-        if got < need and not only:
+        if got < need and not only and not violations:  # a search that stopped at a failure is short by design
             infra.append("subcheck %s ran only %d evaluations (< %d): the tier did not reach its stated coverage" % (name, got, need))
     minimum = P.get("min_evaluations_%s" % tier, 1)
     if infra or (ev["coverage"]["evaluations"] < minimum and not violations):
